@@ -210,9 +210,16 @@ func stacks() []string {
 func panicSite(st string) string {
 	// first frame inside the library after the panic call
 	lines := strings.Split(st, "\n")
-	seenPanic := false
-	for _, l := range lines {
+	// (a deferred function of the library may re-panic: the original site is below the LAST panic frame)
+	lastPanic := -1
+	for i, l := range lines {
 		if strings.HasPrefix(l, "panic(") {
+			lastPanic = i
+		}
+	}
+	seenPanic := false
+	for i, l := range lines {
+		if i == lastPanic {
 			seenPanic = true
 			continue
 		}
